@@ -270,7 +270,7 @@ func runC15(rc *sim.RunCtx) {
 func init() {
 	Register(&sim.Check{
 		ID: "C15", Level: "exploration", Run: runC15,
-		Rule: "a generated history fills the intended store (1-4 owners per path, shadowed and ruling), then 0-4 drift events change, remove or add running leaves directly in the CONFIG store (as sync would); a fake WatchDeviations stream is registered, the real DeviationMgr runs and the fake clock is advanced past its 30 s ticker. The messages between START and END are compared as a multiset of (reason, intent, path, expected, current) with a deviation model computed from direct dumps of both stores. Non-trivial = at least one expected deviation; distinct = (#expected, max intents per path, #drift events).",
+		Rule: "a generated history fills the intended store (1-4 owners per path, shadowed and ruling), then 0-4 drift events change, remove or add running leaves directly in the CONFIG store (as sync would); a fake WatchDeviations stream is registered, the real DeviationMgr runs and the fake clock is advanced past its 30 s ticker. In half of the runs intents over one leaf per YANG type are added and the device reports the same or another datum back in a native form (gNMI typed / JSON / JSON_IETF, NETCONF) through the real converters and Datastore.Sync. The messages between START and END are compared as a multiset of (reason, intent, path, expected, current) with a deviation model computed from direct dumps of both stores. Non-trivial = at least one expected deviation; distinct = (#expected, max intents per path, #drift events).",
 		Real: append(append([]string{}, realCore...), "pkg/datastore DeviationMgr/runDeviationUpdate/WatchDeviations, pkg/server WatchDeviations"), Stub: append(append([]string{}, stubCore...), "gRPC server stream (fake)"),
 		RequiredProbes: []string{"want-UNHANDLED", "want-NOT_APPLIED", "want-OVERRULED"},
 		QuickSeconds:   30, ThoroughSeconds: 420,
